@@ -530,3 +530,146 @@ Proof.
   - intro H. destruct (pearson_r2 (s :: l0)) as [v|], o as [w|]; try discriminate; [|exact I].
     apply Qabs_le_spec. exact H.
 Qed.
+
+(* ---- NaN exactly for constant genotypes; r2 of a variant with itself is 1 ----------------------------- *)
+
+Lemma pearson_ld_nan_iff cand idx :
+  pearson_ld cand idx = None <->
+  filter_gts cand idx <> [] /\
+  (constant_on fx (filter_gts cand idx) \/ constant_on fy (filter_gts cand idx)).
+Proof.
+  unfold pearson_ld. destruct (filter_gts cand idx) as [|s l] eqn:E.
+  - split; [discriminate|]. intros [H _]. contradiction.
+  - unfold pearson_r2. rewrite <- pearson_none_iff.
+    destruct (pearson (s :: l)) as [[sg r]|]; cbn [option_map]; split; try discriminate; try tauto.
+    + intros [_ H]. discriminate.
+    + intros _. split; [discriminate|reflexivity].
+Qed.
+
+Lemma diag_sums (l : list smp) : (forall p, In p l -> fst p = snd p) ->
+  dot fx fy l = dot fx fx l /\ dot fy fy l = dot fx fx l /\ sumf fy l = sumf fx l.
+Proof.
+  induction l as [|p l IH]; intro H; [repeat split; reflexivity|].
+  destruct IH as (I1 & I2 & I3); [intros q Hq; apply H; right; exact Hq|].
+  rewrite !dot_cons, !sumf_cons, I1, I2, I3. unfold fx, fy. rewrite <- (H p) by (left; reflexivity).
+  repeat split; reflexivity.
+Qed.
+
+(* the r2 of a variant with itself is 1 unless its genotypes are constant (then NaN) *)
+Lemma pearson_self (l : list smp) : (forall p, In p l -> fst p = snd p) ->
+  pearson_r2 l = None \/ exists r, pearson_r2 l = Some r /\ (r == 1)%Q.
+Proof.
+  intro H. destruct (diag_sums l H) as (E1 & E2 & E3).
+  assert (varn fy l = varn fx l) as V by (unfold varn; rewrite E2, E3; reflexivity).
+  assert (covn l = varn fx l) as C by (unfold covn, varn; rewrite E1, E3; reflexivity).
+  unfold pearson_r2, pearson. rewrite V, C.
+  destruct (Z.eqb_spec (varn fx l) 0) as [Z0|NZ]; cbn [orb option_map]; [left; reflexivity|].
+  right. eexists. split; [reflexivity|]. cbn [snd].
+  pose proof (varn_nonneg fx l) as P.
+  assert (0 < varn fx l * varn fx l) as PP by (apply Z.mul_pos_pos; lia).
+  unfold Qeq. cbn [Qnum Qden]. rewrite Z2Pos.id by exact PP. ring.
+Qed.
+
+(* ---- GetOverlappingSamples finds every shared sample --------------------------------------------------- *)
+
+From Coq Require Import Sorted.
+
+Definition name_lt (p q : Z * Z) : Prop := fst p < fst q.
+Definition ssorted (l : list (Z * Z)) : Prop := StronglySorted name_lt l.
+
+Lemma insert_s_sorted x l :
+  ssorted l -> ~ In (fst x) (map fst l) -> ssorted (insert_s x l).
+Proof.
+  induction l as [|y r IH]; intros S NI; cbn [insert_s].
+  - constructor; constructor.
+  - inversion S as [|? ? Sr Fy]; subst.
+    assert (fst x <> fst y) as NE by (intro E; apply NI; left; symmetry; exact E).
+    destruct ((fst x <? fst y) || ((fst x =? fst y) && (snd x <=? snd y))) eqn:C.
+    + assert (fst x < fst y) as L.
+      { apply orb_true_iff in C. destruct C as [C|C]; [apply Z.ltb_lt; exact C|].
+        apply andb_true_iff in C. destruct C as [C _]. apply Z.eqb_eq in C. contradiction. }
+      constructor; [exact S|]. constructor; [exact L|].
+      rewrite Forall_forall in *. intros z Hz. specialize (Fy z Hz). unfold name_lt in *. lia.
+    + apply orb_false_iff in C. destruct C as [C _]. apply Z.ltb_ge in C.
+      constructor.
+      * apply IH; [exact Sr|]. intro K. apply NI. right. exact K.
+      * rewrite Forall_forall in *. intros z Hz. apply insert_s_in in Hz. destruct Hz as [->|Hz].
+        -- unfold name_lt. lia.
+        -- apply Fy. exact Hz.
+Qed.
+
+Lemma index_from_names l : forall k, map fst (index_from k l) = l.
+Proof. induction l as [|a r IH]; intro k; [reflexivity|]. cbn. rewrite IH. reflexivity. Qed.
+
+Lemma sort_samples_sorted names : NoDup names -> ssorted (sort_samples names).
+Proof.
+  unfold sort_samples. intro ND. rewrite <- (index_from_names names 0) in ND.
+  induction (index_from 0 names) as [|y r IH]; cbn [fold_right]; [constructor|].
+  cbn [map] in ND. inversion ND as [|? ? NI ND']; subst.
+  apply insert_s_sorted; [apply IH; exact ND'|].
+  intro K. apply NI. apply in_map_iff in K. destruct K as (z & Ez & Hz).
+  rewrite <- Ez. apply in_map. clear - Hz. induction r as [|w r' IHr]; [exact Hz|].
+  cbn [fold_right] in Hz. apply insert_s_in in Hz. destruct Hz as [->|Hz]; [left; reflexivity|right; apply IHr; exact Hz].
+Qed.
+
+Lemma overlap_complete : forall fuel a b s ia ib,
+  ssorted a -> ssorted b -> (length a + length b <= fuel)%nat ->
+  In (s, ia) a -> In (s, ib) b -> In (ia, ib) (overlap fuel a b).
+Proof.
+  induction fuel as [|f IH]; intros a b s ia ib Sa Sb Hl Ha Hb.
+  - destruct a; [contradiction|]. cbn in Hl. lia.
+  - cbn [overlap]. destruct a as [|[sa xa] ra]; [contradiction|]. destruct b as [|[sb xb] rb]; [contradiction|].
+    inversion Sa as [|? ? Sra Fa]; subst. inversion Sb as [|? ? Srb Fb]; subst.
+    rewrite Forall_forall in Fa, Fb. unfold name_lt in Fa, Fb. cbn [fst] in Fa, Fb.
+    assert (sa <= s) as LA by (destruct Ha as [E|Ha]; [inversion E; lia|specialize (Fa _ Ha); cbn in Fa; lia]).
+    assert (sb <= s) as LB by (destruct Hb as [E|Hb]; [inversion E; lia|specialize (Fb _ Hb); cbn in Fb; lia]).
+    cbn [length] in Hl.
+    destruct (sb <? sa) eqn:C1.
+    + apply Z.ltb_lt in C1. apply (IH _ _ s); try assumption; [cbn [length]; lia|].
+      destruct Hb as [E|Hb]; [inversion E; lia|exact Hb].
+    + apply Z.ltb_ge in C1. destruct (sb =? sa) eqn:C2.
+      * apply Z.eqb_eq in C2. subst sb.
+        destruct Ha as [Ea|Ha].
+        -- inversion Ea; subst. destruct Hb as [Eb|Hb]; [inversion Eb; subst; left; reflexivity|].
+           specialize (Fb _ Hb). cbn in Fb. lia.
+        -- right. specialize (Fa _ Ha). cbn in Fa.
+           destruct Hb as [Eb|Hb]; [inversion Eb; lia|].
+           apply (IH _ _ s); try assumption. lia.
+      * apply Z.eqb_neq in C2. apply (IH _ _ s); try assumption; [cbn [length]; lia|].
+        destruct Ha as [E|Ha]; [inversion E; lia|exact Ha].
+Qed.
+
+Lemma index_from_in l : forall k i s, nthZ l i = Some s -> In (s, k + i) (index_from k l).
+Proof.
+  induction l as [|a r IH]; intros k i s H; unfold nthZ in H.
+  - destruct (i <? 0); [discriminate|]. destruct (Z.to_nat i); discriminate.
+  - destruct (i <? 0) eqn:E; [discriminate|]. apply Z.ltb_ge in E.
+    destruct (Z.to_nat i) as [|n] eqn:N.
+    + cbn in H. inversion H; subst. assert (i = 0) by lia. subst. rewrite Z.add_0_r. left. reflexivity.
+    + cbn [nth_error] in H. right. replace (k + i) with ((k + 1) + (i - 1)) by lia. apply IH.
+      unfold nthZ. destruct (i - 1 <? 0) eqn:E2; [lia|]. replace (Z.to_nat (i - 1)) with n by lia. exact H.
+Qed.
+
+Lemma sort_samples_length names : length (sort_samples names) = length names.
+Proof.
+  unfold sort_samples.
+  assert (forall l : list (Z * Z), length (fold_right insert_s [] l) = length l) as G.
+  { induction l as [|y r IHr]; [reflexivity|]. cbn [fold_right length]. rewrite <- IHr.
+    generalize (fold_right insert_s [] r). intro m. induction m as [|z m' IHm]; [reflexivity|].
+    cbn [insert_s]. destruct (_ || _); cbn [length]; [reflexivity|rewrite IHm; reflexivity]. }
+  rewrite G. rewrite <- (map_length fst), index_from_names. reflexivity.
+Qed.
+
+Lemma overlapping_complete snp_names str_names i j s :
+  NoDup snp_names -> NoDup str_names ->
+  nthZ snp_names i = Some s -> nthZ str_names j = Some s ->
+  In (i, j) (overlapping snp_names str_names).
+Proof.
+  intros N1 N2 H1 H2. unfold overlapping.
+  apply (overlap_complete _ _ _ s).
+  - apply sort_samples_sorted. exact N1.
+  - apply sort_samples_sorted. exact N2.
+  - rewrite !sort_samples_length. lia.
+  - apply sort_samples_in. apply (index_from_in _ 0). exact H1.
+  - apply sort_samples_in. apply (index_from_in _ 0). exact H2.
+Qed.
